@@ -1,0 +1,78 @@
+//go:build verif
+
+package plush
+
+// Contracts for package plush, checked by /verif/bin/plushvc (see /verif/DESIGN.md).
+// Comment-only except for ghost client functions; compiled only under build tag "verif".
+
+// ---- C06: operator tables ---------------------------------------------------
+
+//@ func (c *compiler) intsOperator
+//@ arith wrap
+//@ ensures add: op == "+" ==> err == nil && result == box(wrap(l + r))
+//@ ensures sub: op == "-" ==> err == nil && result == box(wrap(l - r))
+//@ ensures mul: op == "*" ==> err == nil && result == box(wrap(l * r))
+//@ ensures div0: op == "/" && r == 0 ==> err != nil
+//@ ensures div: op == "/" && r != 0 ==> err == nil && result == box(wrap(l / r))
+//@ ensures lt: op == "<" ==> err == nil && result == box(l < r)
+//@ ensures gt: op == ">" ==> err == nil && result == box(l > r)
+//@ ensures le: op == "<=" ==> err == nil && result == box(l <= r)
+//@ ensures ge: op == ">=" ==> err == nil && result == box(l >= r)
+//@ ensures eq: op == "==" ==> err == nil && result == box(l == r)
+//@ ensures ne: op == "!=" ==> err == nil && result == box(l != r)
+//@ ensures other: op != "+" && op != "-" && op != "*" && op != "/" && op != "<" && op != ">" && op != "<=" && op != ">=" && op != "==" && op != "!=" ==> err != nil
+//@ assigns nothing
+
+// ---- C07: truthiness ----------------------------------------------------------
+
+//@ pred truthy(v any) = v != nil &&
+//@     !(is(v, "bool") && !unbox(v, "bool")) &&
+//@     !(is(v, "string") && unbox(v, "string") == "") &&
+//@     !(is(v, "template.HTML") && unbox(v, "template.HTML") == "") &&
+//@     !(kindof(dyn(v)) == 22 && pay(v) == 0)
+
+//@ func (c *compiler) isTruthy
+//@ ensures def: result == truthy(i)
+//@ assigns nothing
+
+//@ func (c *compiler) nilsOperator
+//@ ensures ne: op == "!=" ==> err == nil && result == box(l != r)
+//@ ensures eq: op == "==" ==> err == nil && result == box(l == r)
+//@ ensures other: op != "!=" && op != "==" ==> err != nil
+//@ assigns nothing
+
+//@ func (c *compiler) boolsOperator
+//@ ensures and: op == "&&" ==> err == nil && result == box(truthy(l) && truthy(r))
+//@ ensures or: op == "||" ==> err == nil && result == box(truthy(l) || truthy(r))
+//@ ensures ne: op == "!=" ==> err == nil && result == box(truthy(l) != truthy(r))
+//@ ensures eq: op == "==" ==> err == nil && result == box(truthy(l) == truthy(r))
+//@ ensures other: op != "&&" && op != "+" && op != "||" && op != "!=" && op != "==" ==> err != nil
+//@ assigns nothing
+
+//@ func (c *compiler) floatsOperator
+//@ ensures add: op == "+" ==> err == nil && result == box(fadd(l, r))
+//@ ensures sub: op == "-" ==> err == nil && result == box(fsub(l, r))
+//@ ensures mul: op == "*" ==> err == nil && result == box(fmul(l, r))
+//@ ensures div0: op == "/" && feq(r, f64("0")) ==> err != nil
+//@ ensures div: op == "/" && !feq(r, f64("0")) ==> err == nil && result == box(fdiv(l, r))
+//@ ensures lt: op == "<" ==> err == nil && result == box(flt(l, r))
+//@ ensures gt: op == ">" ==> err == nil && result == box(flt(r, l))
+//@ ensures le: op == "<=" ==> err == nil && result == box(flt(l, r) || feq(l, r))
+//@ ensures ge: op == ">=" ==> err == nil && result == box(flt(r, l) || feq(l, r))
+//@ ensures eq: op == "==" ==> err == nil && result == box(feq(l, r))
+//@ ensures ne: op == "!=" ==> err == nil && result == box(!feq(l, r))
+//@ ensures other: op != "+" && op != "-" && op != "*" && op != "/" && op != "<" && op != ">" && op != "<=" && op != ">=" && op != "==" && op != "!=" ==> err != nil
+//@ assigns nothing
+
+//@ func (c *compiler) stringsOperator
+//@ ensures cat: op == "+" ==> err == nil && result == box(l + sprint(r))
+//@ ensures lt: op == "<" ==> err == nil && result == box(strlt(l, sprint(r)))
+//@ ensures gt: op == ">" ==> err == nil && result == box(strlt(sprint(r), l))
+//@ ensures le: op == "<=" ==> err == nil && result == box(!strlt(sprint(r), l))
+//@ ensures ge: op == ">=" ==> err == nil && result == box(!strlt(l, sprint(r)))
+//@ ensures eq: op == "==" ==> err == nil && result == box(l == sprint(r))
+//@ ensures ne: op == "!=" ==> err == nil && result == box(l != sprint(r))
+//@ ensures match: op == "~=" && reOK(sprint(r)) ==> err == nil && result == box(reMatch(sprint(r), l))
+//@ ensures badre: op == "~=" && !reOK(sprint(r)) ==> err != nil
+//@ ensures other: op != "+" && op != "<" && op != ">" && op != "<=" && op != ">=" && op != "==" && op != "!=" && op != "~=" ==> err != nil
+//@ assigns nothing
